@@ -305,6 +305,7 @@ fn oracle_inner(c: &Case, ctx: &mut Ctx, sim: &mut Sim) -> CaseResult {
 	ctx.label_if(st.claimed_then_sent > 0, "claim-replayed-to-sender");
 	ctx.label_if(st.dust_forfeited_after_stale_restart > 0, "dust-htlc-forfeited-after-stale-restart");
 	ctx.label_if(st.parts_checked > 1, "multi-part-collection-checked");
+	ctx.label_if(st.uncommitted_fulfil_then_onchain > 0, "uncommitted-fulfil-resolved-on-chain-after-stale-restart");
 	ctx.label_if(st.htlcs_pending_at_crash > 0, "htlcs-pending-at-crash");
 	ctx.label(match c.spec.topo {
 		Topology::Pair => "topo:pair",
